@@ -56,10 +56,11 @@ def check_c09(tier, seed):
 
 def check_c12(tier, seed):
     q = tier == "quick"
-    run = wrap_run("C12", tier, seed, ["failfs", "failro"], ["memfs", "orefafs"], 1 if q else 2, 2 if q else 3)
+    # (two base-building calls x three wrapper calls x 61 plans is 15 GB of transitions: the thorough tier deepens the base)
+    run = wrap_run("C12", tier, seed, ["failfs", "failro"], ["memfs", "orefafs"], 1 if q else 2, 2)
     try:
         run.cov["exhaustive"] = True
-        run.cov["universe"] = "base trees built by <=%d elementary calls; plans: none, ReadOnlyFunc, and 'the 1st/2nd consultation of F fails' for 30 primitives F; <=%d calls through the wrapper, each consulting the planned primitive until the plan fires" % ((1, 2) if q else (2, 3))
+        run.cov["universe"] = "base trees built by <=%d elementary calls; plans: none, ReadOnlyFunc, and 'the 1st/2nd consultation of F fails' for 30 primitives F; <=%d calls through the wrapper, each consulting the planned primitive until the plan fires" % ((1, 2) if q else (2, 2))
         return nscheck.finish(run, "C12", extra_assumptions=["the injected error is a sentinel; the sequence of consulted primitives of every call is logged by the failure function and must equal the specification's"])
     finally:
         run.close()
